@@ -2,6 +2,7 @@ package main
 
 import (
 	"fmt"
+	"os"
 	"regexp"
 	"strings"
 	"time"
@@ -231,6 +232,27 @@ func (cx *Ctx) oracleC15(rs []JobResult) (bool, string, string, string) {
 			break
 		}
 		a, b := res.Solo[i], res.Outcomes[i]
+		if a.Verdict != "BUDGET" && b.Verdict == "BUDGET" && (b.Detail == "loop" || b.Detail == "ticks" || b.Detail == "depth") && !spawned {
+			// returns when run alone, runs away next to the others. Ticks are counted per call, on the caller's own task, so
+			// the other callers' work is not in this number. A caller may legitimately do MORE work under contention (a CAS
+			// retry loop, polling for a resource another caller holds), but never more than what all callers together need
+			// alone: "ran 20x longer than the solo runs of all callers together, and was still not done" is a call that does
+			// not return because of the others. (Heap growth is process-wide and is not judged here.)
+			var all uint64
+			for _, s := range res.Solo {
+				if s.Verdict == "BUDGET" {
+					all = 1 << 62
+					break
+				}
+				all += s.Ticks
+			}
+			if b.Ticks/20 > all {
+				c := jr.Job.Calls[i]
+				what := fmt.Sprintf("caller %d of %d concurrent callers: Layout(%s; %s) %s after %d simulated ticks when run alone, but under %s it was still running after %d ticks of its own (all %d callers together need %d ticks alone): %s",
+					i, len(jr.Job.Calls), edgesText(c.Edges), optsText(c.Opts), describe(a), a.Ticks, sched, b.Ticks, len(res.Solo), all, describe(b))
+				return true, "interference | call does not return under concurrency", what, fpOf("noreturn", b.Detail)
+			}
+		}
 		if a.Verdict == "BUDGET" || b.Verdict == "BUDGET" {
 			continue
 		}
@@ -606,6 +628,10 @@ func (cx *Ctx) c15Shrink(job *spec.Job, key, what, fp string) {
 func (cx *Ctx) c15Real(r *rng) map[string]any {
 	if cx.RaceBin == "" {
 		return map[string]any{"skipped": "no race worker"}
+	}
+	if os.Getenv("VERIF_SKIP_O3") != "" {
+		// experiments on seeded changes only (a real-thread hang costs the whole stress timeout); never set by the checks
+		return map[string]any{"skipped": "VERIF_SKIP_O3 set (experiment)"}
 	}
 	// inputs: must return under simulation first (the real runtime has no budget)
 	var cand []*spec.Job
